@@ -153,7 +153,7 @@ Enter(p) ==
          early(e) == /\ act' = [act EXCEPT ![p].pc = "ret", ![p].err = e]
                      /\ UNCHANGED calls
      IN
-     IF g = "platform" THEN early(NoErr)
+     IF g \in {"platform", "platreq"} THEN early(NoErr)
      ELSE IF g = "requires" \/ (g = "enum" /\ a.v = "") THEN early(Err("code", 206))
      ELSE IF g = "enum" /\ a.v # "one" THEN early(Err("code", 207))
      ELSE /\ calls' = [calls EXCEPT ![t] = @ + 1]
